@@ -173,8 +173,12 @@ def run(tier):
             rep.violation(f"spec theorem {r.violated} fails in Gemini.tla for shape {shape}: the oracle itself is wrong",
                           {"shape": shape, "trace": r.trace[:3000]}, tags=("spec",))
         rep.add_tlc("Gemini", r, note=f"shape={shape} closed={closed} chunks={nch} invariants={','.join(invs)}")
-        for case in r.prints:
+        for ci, case in enumerate(r.prints):
             check_case(rep, case, closed, stats, max_perms=6 if tier == "quick" else 10)
+            if not closed and ci % (50 if tier == "quick" else 20) == 3:
+                # sample-reordering invariance at N in the hundreds: the replicated, shuffled problem keeps the exact value
+                from checks import c01
+                c01.replicated(rep, case, ci)
         if r.prints:
             c = r.prints[len(r.prints) // 2]
             rep.sample({"shape": list(shape), "closed": closed, "a": c["a"], "x": c["x"]})
